@@ -17,6 +17,7 @@ import JT.Gen.TermDefaults
 import JT.Model.AttStream
 import JT.Model.Codec2
 import JT.Model.Codec3
+import JT.Model.Params
 import JT.Model.Codec4
 /-!
 Line-protocol driver: one operation per input line, one result line per operation.
@@ -204,6 +205,7 @@ def rtModel3 (ty : String) (b : Bytes) : Option (Res Bytes) :=
   | "T0x1205" => some ((Codec3.parseT0x1205 b).bind fun v => .ok (Codec3.encodeT0x1205 v))
   | "P0x9102" => some ((Codec3.parseP0x9102 b).bind fun v => .ok (Codec3.encodeP0x9102 v))
   | "P0x9207" => some ((Codec3.parseP0x9207 b).bind fun v => .ok (Codec3.encodeP0x9207 v))
+  | "P0x8103" => some ((Params.parse8103 b).bind fun v => .ok (Params.encode8103 v))
   | _ => none
 
 /-- outcome class of decoding (C03) for the decoders that have a Lean model -/
@@ -237,6 +239,8 @@ def totModel2 (ty ctx : String) (b : Bytes) : Option String :=
   | "P0x8801" => some (resClass (Codec2.parseP0x8801 b))
   | "T0x1005" => some (resClass (Codec2.parseT0x1005 b))
   | "P0x9208" => some (resClass (Codec2.parseP0x9208 (dialectOfCtx ctx) b))
+  | "P0x8103" => some (resClass (Params.parse8103 b))
+  | "T0x0104" => some (resClass (Params.parse0104 b))
   | "T0x0200AdditionExtension0x64" => some (resClass (Codec4.parseExt64 (dialectOfCtx ctx) b))
   | "T0x0200AdditionExtension0x65" => some (resClass (Codec4.parseExt65 (dialectOfCtx ctx) b))
   | "T0x0200AdditionExtension0x66" => some (resClass (Codec4.parseExt66 (dialectOfCtx ctx) b))
